@@ -1240,6 +1240,7 @@ pub fn handle(st: &mut State, line: &str) -> String {
             "LEAFDECI" => leaf_dec_interrupted(&mut t),
             "LEAFENC" => leaf_enc(&mut t),
             "SWEEP32" => sweep32(&mut t),
+            "SWEEPMT" => sweep_mt(&mut t),
             "UTF8" => {
                 let b = t.bytes()?;
                 Ok(if String::from_utf8(b).is_ok() { "1".into() } else { "0".into() })
@@ -1268,10 +1269,49 @@ pub fn handle(st: &mut State, line: &str) -> String {
 /// closed form RFC 6733 assigns (a transcription of the model's dec4: unsigned big-endian / two's complement / IEEE-754
 /// bit pattern / seconds since 1900-01-01 / dotted quad), re-encode, compare the octets.  Output: SWEPT <n> <failures> [first].
 fn sweep32(t: &mut Toks) -> PResult<String> {
-    use chrono::TimeZone;
     let ty = t.next()?.to_string();
     let lo = t.u64()?;
     let hi = t.u64()?;
+    sweep32_run(&ty, lo, hi, 1)
+}
+
+/// SWEEPMT <threads> <n>: `threads` threads at once, each taking every four-octet type through n patterns that lie a day and
+/// a bit apart (86 477 s; n is above 2^16): what a value decodes to depends on its octets - not on what other threads decode
+/// at the same moment, not on how many values this thread has decoded before.  Output: SWEPTMT <n> <failures> [first].
+fn sweep_mt(t: &mut Toks) -> PResult<String> {
+    let threads = t.usize_dec()?;
+    let n = t.u64()?;
+    let mut hs = Vec::new();
+    for k in 0..threads {
+        hs.push(std::thread::spawn(move || {
+            let mut res = Vec::new();
+            for ty in ["time", "u32", "i32", "en", "f32", "ip4"] {
+                let lo = (k as u64).wrapping_mul(0x0101_3f27) & 0xffff_ffff;
+                res.push(catch_unwind(AssertUnwindSafe(|| sweep32_run(ty, lo, lo + n, 86_477))).unwrap_or_else(|p| {
+                    Ok(format!("SWEPT {} 1 panic:{}", n, p.downcast_ref::<String>().cloned().or_else(|| p.downcast_ref::<&str>().map(|s| s.to_string())).unwrap_or_default().replace(' ', "_")))
+                }));
+            }
+            res
+        }));
+    }
+    let (mut total, mut bad, mut first) = (0u64, 0u64, String::new());
+    for h in hs {
+        for r in h.join().map_err(|_| "sweep thread died".to_string())? {
+            let line = r?;
+            let f: Vec<&str> = line.split(' ').collect();
+            total += f[1].parse::<u64>().unwrap_or(0);
+            let b = f[2].parse::<u64>().unwrap_or(1);
+            if b != 0 && bad == 0 {
+                first = f.get(3).unwrap_or(&"").to_string();
+            }
+            bad += b;
+        }
+    }
+    Ok(format!("SWEPTMT {} {} {}", total, bad, first))
+}
+
+fn sweep32_run(ty: &str, lo: u64, hi: u64, stride: u64) -> PResult<String> {
+    use chrono::TimeZone;
     let mut bad: u64 = 0;
     let mut first = String::new();
     let mut quad = String::with_capacity(16);
@@ -1282,12 +1322,12 @@ fn sweep32(t: &mut Toks) -> PResult<String> {
         }
         *bad += 1;
     };
-    for p64 in lo..hi {
-        let p = p64 as u32;
+    for i in 0..(hi - lo) {
+        let p = lo.wrapping_add(i.wrapping_mul(stride)) as u32;
         let b = p.to_be_bytes();
         let mut cur = Cursor::new(&b[..]);
         let mut out = Vec::with_capacity(4);
-        let ok = match ty.as_str() {
+        let ok = match ty {
             "u32" => match Unsigned32::decode_from(&mut cur) {
                 Ok(v) => v.value() == p && v.encode_to(&mut out).is_ok(),
                 Err(_) => false,
